@@ -285,7 +285,7 @@ func (w *World) buildBuilt(spec FuncSpec, opts []am.Arg) (*am.Func, error) {
 			if l.Name != "" {
 				v = out.Named(strings.ToLower(l.Name))
 			} else {
-				v = out.TypedSubtype(typeOf(l.T), l.Sub)
+				v = typedEntry(out, l)
 			}
 			if v == nil {
 				panic(fmt.Sprintf("harness: built output %s not found in set", l))
@@ -301,4 +301,15 @@ func (w *World) buildBuilt(spec FuncSpec, opts []am.Arg) (*am.Func, error) {
 func inputArg(in Input) am.Arg {
 	v := mkVal(in.L.T, in.V).Interface()
 	return am.NamedSubtype(in.L.Name, v, in.L.Sub)
+}
+
+// typedEntry returns the type-only entry of a value set for a label (TypedSubtype also
+// matches named entries of that type and subtype, so the result is checked).
+func typedEntry(set *am.ValueSet, l Label) *am.Value {
+	for _, p := range []*am.Value{set.TypedSubtype(typeOf(l.T), l.Sub), set.Typed(typeOf(l.T))} {
+		if p != nil && p.Name == "" && p.Subtype == l.Sub {
+			return p
+		}
+	}
+	return nil
 }
